@@ -38,7 +38,7 @@ type Program struct {
 	ifaceIDs  map[int]types.Type
 }
 
-func loadProgram(repo string, overlayContract string) (*Program, error) {
+func loadProgram(repo string, overlayContract string, force bool) (*Program, error) {
 	cfg := &packages.Config{Mode: packages.LoadAllSyntax, Dir: repo, BuildFlags: []string{"-tags=verif"},
 		Env: append(os.Environ(), "GOFLAGS=-mod=mod", "GOPROXY=off", "GOSUMDB=off", "GOTOOLCHAIN=local")}
 	cpath := filepath.Join(repo, "pkg/ggql/verif_contracts.go")
@@ -46,7 +46,7 @@ func loadProgram(repo string, overlayContract string) (*Program, error) {
 		ifaceCons: map[string]*Contract{}, pures: map[string]bool{}, funcs: map[string]*ssa.Function{},
 		tags: map[string]int{}, strLits: map[string]string{}, srcLines: map[string][]string{}, impls: map[string][]*ssa.Function{}}
 	p.contractSource = cpath
-	if _, err := os.Stat(cpath); err != nil {
+	if _, err := os.Stat(cpath); err != nil || force {
 		if overlayContract == "" {
 			return nil, fmt.Errorf("contract file missing: %s", cpath)
 		}
